@@ -1,8 +1,10 @@
 package main
 
 import (
+	"fmt"
 	"go/constant"
 	"go/token"
+	"os"
 	"regexp"
 	"sort"
 	"strings"
@@ -564,10 +566,15 @@ func HeldEdges(fn *ssa.Function, re string) []Edge {
 		if iff == nil {
 			continue
 		}
+		n := 0
 		for idx, pol := range []bool{true, false} {
 			if condHeldMatches(fn, b, iff.Cond, pol, rx) {
 				out = append(out, Edge{b, idx})
+				n++
 			}
+		}
+		if n == 2 && os.Getenv("VERIF_DEBUG_BOTH") != "" {
+			fmt.Fprintln(os.Stderr, "BOTH-POLARITIES", fname(fn), "/"+re+"/", normCond(iff.Cond, true))
 		}
 	}
 	return out
